@@ -667,12 +667,23 @@ class HistogramBase(abc.ABC):
         """Whether two histograms share the same binning."""
         if self.shape != other.shape:
             return False
-        elif self.ndim == 1:
-            return np.allclose(self.bins, other.bins)
-        for i in range(self.ndim):
-            if not np.allclose(self.bins[i], other.bins[i]):
-                return False
-        return True
+
+        def same(bins1: np.ndarray, bins2: np.ndarray) -> bool:
+            # Edges may differ by rounding only: far less than the narrowest bin is wide
+            # (a tolerance relative to the edge values would merge neighbouring bins
+            # that lie far from zero).
+            bins1, bins2 = np.asarray(bins1, dtype=float), np.asarray(bins2, dtype=float)
+            if bins1.size == 0:
+                return True
+            width = min(np.min(bins1[:, 1] - bins1[:, 0]), np.min(bins2[:, 1] - bins2[:, 0]))
+            tolerance = np.maximum(
+                1e-9 * width, 4 * np.spacing(np.maximum(np.abs(bins1), np.abs(bins2)))
+            )
+            return bool(np.all(np.abs(bins1 - bins2) <= tolerance))
+
+        if self.ndim == 1:
+            return same(self.bins, other.bins)
+        return all(same(self.bins[i], other.bins[i]) for i in range(self.ndim))
 
     def copy(
         self: "HistogramType", *, include_frequencies: bool = True
